@@ -3,6 +3,7 @@ package main
 // Symbolic executor over go/ssa (naive form): generates obligations.
 
 import (
+	"regexp"
 	"time"
 	"os"
 	"fmt"
@@ -79,6 +80,7 @@ type Exec struct {
 	Prop string
 	selfVal *Value
 	batchCtr int
+	fired    map[*Clause]bool // call-site assertions that produced an obligation in this function
 	forks int
 	pruned int
 }
@@ -716,6 +718,7 @@ func (x *Exec) typeInv(t string, typ types.Type) string {
 func (x *Exec) VerifyFunc(fn *ssa.Function, fc *FuncContract, name string) (obls []*Obligation, err error) {
 	x.fn, x.fc, x.fname = fn, fc, name
 	x.obls = nil
+	x.fired = map[*Clause]bool{}
 	x.forks, x.pruned = 0, 0
 	x.paths = 0
 	x.returned = 0
@@ -826,6 +829,27 @@ func (x *Exec) VerifyFunc(fn *ssa.Function, fc *FuncContract, name string) (obls
 	x.run(st)
 	if x.returned == 0 && !x.noReturn(fn) {
 		// every path ended in a cut (loop back edge) or infeasible
+	}
+	// A call-site assertion whose call site was never reached generates no obligation at all:
+	// the contract no longer attaches to the code. That is reported, not passed over in silence.
+	if fc != nil {
+		for _, cl := range fc.Ensures {
+			if snapshotRefs(fc, cl) > 0 && !x.fired[cl] {
+				o := &Obligation{Name: name + "/anchor/" + cl.Label, Func: name, Kind: "effects", Label: cl.Label, Props: cl.Props,
+					Goal: "false", Where: cl.Where, Mode: x.Mode,
+					Src: "no returning path of " + name + " takes the snapshots that postcondition " + cl.Label + " mentions: `" + cl.Src + "` cannot be checked"}
+				x.obls = append(x.obls, o)
+			}
+		}
+		for _, a := range fc.Asserts {
+			if a.At == "" || a.At == "return" || x.fired[a] {
+				continue
+			}
+			o := &Obligation{Name: name + "/anchor/" + a.Label, Func: name, Kind: "effects", Label: a.Label, Props: a.Props,
+				Goal: "false", Where: a.Where, Mode: x.Mode,
+				Src: "the call site `" + a.At + "` of assertion " + a.Label + " is not reached in " + name + ": the assertion `" + a.Src + "` cannot be checked"}
+			x.obls = append(x.obls, o)
+		}
 	}
 	return x.obls, nil
 }
@@ -1191,6 +1215,21 @@ func (x *Exec) gotoBlock(st *State, b *ssa.BasicBlock) bool {
 	fr := st.top()
 	// leave loops that do not contain b
 	for len(fr.Open) > 0 && !fr.Open[len(fr.Open)-1].Blocks[b] {
+		// named snapshots taken when the loop is left: `snapshot name: at leave N: expr`
+		if x.fc != nil && len(x.fc.Snapshots) > 0 && len(st.frames) == 1 && fr.Fn == x.fn {
+			at := fmt.Sprintf("leave %d", fr.Open[len(fr.Open)-1].Ordinal)
+			for _, sn := range x.fc.Snapshots {
+				if sn.At == at {
+					v := x.eval(x.envFor(st, x.entry, fr), sn.Expr)
+					ns := map[string]*Value{}
+					for k, vv := range st.snaps {
+						ns[k] = vv
+					}
+					ns[sn.Label] = v
+					st.snaps = ns
+				}
+			}
+		}
 		// an iteration that leaves the loop from its body (break) also satisfies the step clauses
 
 		// copy: the backing array may be shared with a forked state
@@ -1665,6 +1704,27 @@ func globalName(g *ssa.Global) string {
 }
 
 // ---------------------------------------------------------------------------
+var snapRefRe = regexp.MustCompile(`\$([A-Za-z_][A-Za-z_0-9]*)`)
+
+func isSnapshotName(fc *FuncContract, n string) bool {
+	for _, sn := range fc.Snapshots {
+		if sn.Label == n {
+			return true
+		}
+	}
+	return false
+}
+
+func snapshotRefs(fc *FuncContract, cl *Clause) int {
+	n := 0
+	for _, m := range snapRefRe.FindAllStringSubmatch(cl.Src, -1) {
+		if isSnapshotName(fc, m[1]) {
+			n++
+		}
+	}
+	return n
+}
+
 // at return of the function under verification
 
 func (x *Exec) atReturn(st *State, res []*Value, ins *ssa.Return) {
@@ -1695,10 +1755,26 @@ func (x *Exec) atReturn(st *State, res []*Value, ins *ssa.Return) {
 	x.batchCtr++
 	x.batch = x.batchCtr
 	defer func() { x.batch = 0 }()
+	for k, v := range st.snaps {
+		env.vars["$"+k] = v
+	}
 	for i, cl := range fc.Ensures {
 		label := cl.Label
 		if label == "" {
 			label = fmt.Sprint(i + 1)
+		}
+		// a postcondition that mentions a snapshot speaks about the paths on which it was taken
+		if snapshotRefs(fc, cl) > 0 {
+			missing := false
+			for _, m := range snapRefRe.FindAllStringSubmatch(cl.Src, -1) {
+				if _, ok := st.snaps[m[1]]; !ok && isSnapshotName(fc, m[1]) {
+					missing = true
+				}
+			}
+			if missing {
+				continue
+			}
+			x.fired[cl] = true
 		}
 		g := x.evalBool(env, cl.Expr)
 		x.oblige(st, "post", label, cl.Props, g, cl.Where, cl.Src)
